@@ -166,10 +166,11 @@ def state_key(st):
 
 class Act:
     __slots__ = ("kind", "target", "name", "cost", "prob", "req", "service",
-                 "process", "os", "grant")
+                 "process", "os", "grant", "custom")
 
     def __init__(self, kind, target, name=None, d=None, cost=0.0):
         self.kind, self.target, self.name = kind, target, name
+        self.custom = None
         self.cost = float(cost)
         self.prob = 1.0
         self.req = USER
@@ -189,10 +190,28 @@ class Act:
             self.req = NONE
 
     def key(self):
+        if self.custom:
+            return (self.kind, self.target, self.name, self.custom)
         return (self.kind, self.target, self.name)
 
+    def variant(self, req=None, prob=None, cost=None):
+        """the same action built by hand through the public Action constructors with another
+        required access / probability / cost"""
+        v = Act.__new__(Act)
+        for k in Act.__slots__:
+            setattr(v, k, getattr(self, k))
+        if req is not None:
+            v.req = req
+        if prob is not None:
+            v.prob = prob
+        if cost is not None:
+            v.cost = float(cost)
+        v.custom = ("hand-built", v.req, v.prob, v.cost)
+        return v
+
     def __repr__(self):
-        return f"{self.kind}{':' + self.name if self.name else ''}@{self.target}"
+        c = f"[hand-built req={self.req} prob={self.prob} cost={self.cost}]" if self.custom else ""
+        return f"{self.kind}{':' + self.name if self.name else ''}@{self.target}{c}"
 
 
 def flat_actions(spec):
